@@ -20,18 +20,101 @@
          mode 0 copy 1 reference 2 mutable reference 3 owned (orders 2,3 only)
          wi = 1: WithIndex (orders 2,3 only)
          result: outcome of (source, iterator constructor), then (len0 (step…) data)
-              item = () | ((v)) | ((r c) (v)) *)
+              item = () | ((v)) | ((r c) (v))
+     (9 5 kind wi term k)               the tensor iterators over ANY view of the C02 algebra as the
+         source (Model/IterG.v `cview_source`; `term` in the language of Run/RunC02.v: TensorIndex,
+         TensorExpansion, TensorStack, TensorChain, wrappers, matrix-backed leaves, convenience
+         constructors; the element of leaf id at offset j is id*1000 + j).  kinds 2, 3 need a
+         view with a mutable face (no `&S` wrapper / `&self` convenience constructor below it).
+         result: (1 e) | (2) first failing constructor of the term, else
+              (0 (len0 (step…) ((leaf data…)…)))  every leaf's data afterwards, in term order
+     (9 6 order mode wi rows cols data leaf (wrapper…) arg k)   the matrix iterators over a stack
+         of C12 matrix views (Model/IterG.v `mview_source`: the views' UNCHECKED getters of
+         Model/MatrixAccess.v) over Matrix::from_flat_row_major((rows, cols), data); leaf and
+         wrappers as in Run/RunC12.v: (0) the matrix | (1 (rp) (cp) j) part j of partition |
+         (2 r c j) quadrant j ; wrappers (0 r0 rl c0 cl) (1 a b c d) range | (2 rr cc) reverse |
+         (3 n0 n1) (4) tensor round trip
+         result: (2) partition panicked | (1 shape) a tensor wrapper refused, else as (9 3 …) with
+              the ROOT matrix' data
+     (9 7 (pstep…) op args…)            any of the ops 1, 2, 3, 5, 6 above, the iterator driven by a
+         SCRIPT over the provided Iterator methods a type may override instead of k calls of
+         next() (Model/IterProg.v; the `k` of the inner op is ignored):
+              pstep = (0 n) nth(n) | (1 n) by_ref().skip(n).next() | (2 k j) by_ref().step_by(k).take(j).collect()
+                    | (3 j) by_ref().take(j).collect() | (4) count() | (5) last() | (6) fold (terminal)
+         the (step…) component then lists per pstep: (item len) | (7 (item…) len) | (8 (item…) len)
+              | (4 count) | (5 item) | (6 (item…)); len() / size_hint() are taken after every
+         non-terminal step; a mutable iterator's references are written (old + 1000*j, j-th
+         reference handed out) after the script *)
 From Coq Require Import List ZArith NArith Bool Arith.
 From EasyML Require Import Base.Sx Model.Shape Model.Tensor Model.TSource Model.ShapeIter
-  Model.MatrixIter.
+  Model.MatrixIter Model.MatrixViews Model.MatrixAccess Model.IterG Model.IterProg.
+From EasyML Require Model.Views Run.RunC02 Run.RunC12.
 Import ListNotations.
 Open Scope N_scope.
 
 Definition sstep {I} (f : I -> sx) (st : option I * N) : sx := SL [sopt f (fst st); sN (snd st)].
 
-Definition c09_shapeiter (sh : shape) (k : nat) : sx :=
+(* ---- scripts (op 7) ---- *)
+Definition dpstep (s : sx) : option pstep :=
+  match s with
+  | SL [SZ 0%Z; n] => option_map PNth (dnat n)
+  | SL [SZ 1%Z; n] => option_map PSkip (dnat n)
+  | SL [SZ 2%Z; k; j] => match dnat k, dnat j with
+                         | Some (S k), Some j => Some (PStepBy (S k) j)
+                         | _, _ => None
+                         end
+  | SL [SZ 3%Z; j] => option_map PTake (dnat j)
+  | SL [SZ 4%Z] => Some PCount
+  | SL [SZ 5%Z] => Some PLast
+  | SL [SZ 6%Z] => Some PFold
+  | _ => None
+  end.
+
+Definition sitem_opt {I} (enc : I -> sx) (x : option I) : sx :=
+  match x with None => SL [] | Some i => enc i end.
+Definition spout {I} (enc : I -> sx) (o : pout I) : sx :=
+  match o with
+  | OItem x l => SL [sitem_opt enc x; sN l]
+  | OItems tag xs l => SL [snat tag; slist enc xs; sN l]
+  | OCount c => SL [SZ 4%Z; snat c]
+  | OLast x => SL [SZ 5%Z; sitem_opt enc x]
+  | OFold xs => SL [SZ 6%Z; slist enc xs]
+  end.
+
+(* the encoded outputs, the (place, value) of every item handed out, the final iterator *)
+Definition script_run {St I P} (next : St -> option I * St) (len : St -> N) (enc : I -> sx)
+           (pv : I -> P * option Z) (script : list pstep) (it : St) : sx * list (P * option Z) * St :=
+  let '(outs, it') := run_script next len script it in
+  (slist (spout enc) outs, map pv (flat_map pout_items outs), it').
+
+(* the j-th reference handed out (1-based) receives old + 1000*j *)
+Fixpoint apply_item_writes {P St} (write : St -> P -> Z -> St) (items : list (P * option Z)) (j : Z)
+         (s : St) : St :=
+  match items with
+  | [] => s
+  | (p, Some v) :: r => apply_item_writes write r (j + 1)%Z (write s p (v + 1000 * j)%Z)
+  | (_, None) :: r => apply_item_writes write r (j + 1)%Z s
+  end.
+
+Definition enc_plain {P} (i : P * option Z) : sx := SL [sopt SZ (snd i)].
+Definition enc_wi {P} (sp : P -> sx) (i : P * (P * option Z)) : sx := SL [sp (fst i); sopt SZ (snd (snd i))].
+
+(* a whole iterator run under a script: `wi` chooses the WithIndex wrapper; `mutable`: write back *)
+Definition script_iter {St P} (next : St -> option (P * option Z) * St)
+           (next_wi : St -> option (P * (P * option Z)) * St) (len : St -> N) (sp : P -> sx)
+           (write : St -> P -> Z -> St) (wi mutable : bool) (script : list pstep) (it : St) : sx * St :=
+  let '(steps, items, it') :=
+    if wi then script_run next_wi len (enc_wi sp) (fun i => snd i) script it
+    else script_run next len enc_plain (fun i => i) script it in
+  (steps, if mutable then apply_item_writes write items 1%Z it' else it').
+
+Definition c09_shapeiter (script : option (list pstep)) (sh : shape) (k : nat) : sx :=
   let it := shape_iter_from sh in
-  SL [sN (iter_len it); slist (sstep (slist sN)) (fst (drive iter_next iter_len k it))].
+  match script with
+  | None => SL [sN (iter_len it); slist (sstep (slist sN)) (fst (drive iter_next iter_len k it))]
+  | Some sc => SL [sN (iter_len it);
+                   slist (spout (fun idx => SL [slist sN idx])) (fst (run_script iter_next iter_len sc it))]
+  end.
 
 (* items normalised to (index reported by WithIndex if any, (place, value)) *)
 Definition norm_plain {P} (x : option (P * option Z) * N) : option (option P * (P * option Z)) * N :=
@@ -64,60 +147,200 @@ Fixpoint apply_writes {P St} (write : St -> P -> Z -> St)
   | _ :: r => apply_writes write r (j + 1)%Z s
   end.
 
-Definition c09_titer (kind : nat) (wi : bool) (src : tsrc Z) (k : nat) : sx :=
+Definition c09_titer (script : option (list pstep)) (kind : nat) (wi : bool) (src : tsrc Z) (k : nat) : sx :=
   let it := tensor_iter_from src in
   let next := match kind with 3%nat => ti_next_owned 0%Z | _ => ti_next end in
+  match script with
+  | Some sc =>
+      let '(steps, it'') := script_iter next (ti_with_index next) ti_len (slist sN) ti_write wi
+                                        (Nat.eqb kind 2) sc it in
+      SL [sN (ti_len it); steps; slist SZ (t_data (src_base (ti_source it'')))]
+  | None =>
   let '(steps, it') :=
     if wi then let '(s, i) := drive (ti_with_index next) ti_len k it in (map norm_wi s, i)
     else let '(s, i) := drive next ti_len k it in (map norm_plain s, i) in
   let it'' := match kind with 2%nat => apply_writes ti_write steps 1%Z it' | _ => it' end in
   SL [sN (ti_len it); slist (sstep' (slist sN)) steps;
-      slist SZ (t_data (src_base (ti_source it'')))].
+      slist SZ (t_data (src_base (ti_source it'')))]
+  end.
 
 Definition spair_rc (p : N * N) : sx := SL [sN (fst p); sN (snd p)].
 
-Definition c09_line (mode : nat) (it : line_iter Z) (k : nat) : sx :=
+(* the line iterators have no WithIndex form: the wi slot of script_iter is never taken *)
+Definition no_wi {St P} (it : St) : option (P * (P * option Z)) * St := (None, it).
+
+Definition c09_line (script : option (list pstep)) (mode : nat) (it : line_iter Z) (k : nat) : sx :=
+  match script with
+  | Some sc =>
+      let '(steps, it'') := script_iter li_next no_wi li_len spair_rc li_write false (Nat.eqb mode 2) sc it in
+      SL [sN (li_len it); steps; slist SZ (m_data (ms_base (li_source it'')))]
+  | None =>
   let '(s, it') := drive li_next li_len k it in
   let steps := map norm_plain s in
   let it'' := match mode with 2%nat => apply_writes li_write steps 1%Z it' | _ => it' end in
-  SL [sN (li_len it); slist (sstep' spair_rc) steps; slist SZ (m_data (ms_base (li_source it'')))].
+  SL [sN (li_len it); slist (sstep' spair_rc) steps; slist SZ (m_data (ms_base (li_source it'')))]
+  end.
 
-Definition c09_major (mode : nat) (wi : bool) (it : major_iter Z) (k : nat) : sx :=
+Definition c09_major (script : option (list pstep)) (mode : nat) (wi : bool) (it : major_iter Z) (k : nat) : sx :=
   let next := match mode with 3%nat => mi_next_owned 0%Z | _ => mi_next end in
+  match script with
+  | Some sc =>
+      let '(steps, it'') := script_iter next (mi_with_index next) mi_len spair_rc mi_write wi
+                                        (Nat.eqb mode 2) sc it in
+      SL [sN (mi_len it); steps; slist SZ (m_data (ms_base (mi_source it'')))]
+  | None =>
   let '(steps, it') :=
     if wi then let '(s, i) := drive (mi_with_index next) mi_len k it in (map norm_wi s, i)
     else let '(s, i) := drive next mi_len k it in (map norm_plain s, i) in
   let it'' := match mode with 2%nat => apply_writes mi_write steps 1%Z it' | _ => it' end in
-  SL [sN (mi_len it); slist (sstep' spair_rc) steps; slist SZ (m_data (ms_base (mi_source it'')))].
+  SL [sN (mi_len it); slist (sstep' spair_rc) steps; slist SZ (m_data (ms_base (mi_source it'')))]
+  end.
 
-Definition c09_miter (order mode : nat) (wi : bool) (src : msrc Z) (arg : N) (k : nat) : sx :=
+Definition c09_miter (script : option (list pstep)) (order mode : nat) (wi : bool) (src : msrc Z) (arg : N) (k : nat) : sx :=
   match order with
-  | 0%nat => soutcome (fun it => c09_line mode it k) (column_iter_from src arg)
-  | 1%nat => soutcome (fun it => c09_line mode it k) (row_iter_from src arg)
-  | 2%nat => soutcome (fun it => c09_major mode wi it k) (Ok (major_iter_from false src))
-  | 3%nat => soutcome (fun it => c09_major mode wi it k) (Ok (major_iter_from true src))
-  | _ => soutcome (fun it => c09_line mode it k) (Ok (diagonal_iter_from src))
+  | 0%nat => soutcome (fun it => c09_line script mode it k) (column_iter_from src arg)
+  | 1%nat => soutcome (fun it => c09_line script mode it k) (row_iter_from src arg)
+  | 2%nat => soutcome (fun it => c09_major script mode wi it k) (Ok (major_iter_from false src))
+  | 3%nat => soutcome (fun it => c09_major script mode wi it k) (Ok (major_iter_from true src))
+  | _ => soutcome (fun it => c09_line script mode it k) (Ok (diagonal_iter_from src))
   end.
 
 Definition c09_shapeiter_items (sh : shape) (k : nat) : sx :=
   slist (fun st => sopt (slist sN) (fst st)) (fst (drive iter_next (fun _ => 0) k (shape_iter_from sh))).
 
-Definition run_c09 (args : list sx) : sx :=
+(* ---- op 5: tensor iterators over C02 view terms ---- *)
+Definition c09_gtiter {St} (script : option (list pstep)) (o : tsource St Z) (dump : St -> sx)
+           (kind : nat) (wi : bool) (s : St) (k : nat) : sx :=
+  let it := gti_from o s in
+  let next := match kind with 3%nat => gti_next_owned o 0%Z | _ => gti_next o end in
+  match script with
+  | Some sc =>
+      let '(steps, it'') := script_iter next (gti_with_index next) gti_len (slist sN) (gti_write o) wi
+                                        (Nat.eqb kind 2) sc it in
+      SL [sN (gti_len it); steps; dump (gi_source it'')]
+  | None =>
+  let '(steps, it') :=
+    if wi then let '(s, i) := drive (gti_with_index next) gti_len k it in (map norm_wi s, i)
+    else let '(s, i) := drive next gti_len k it in (map norm_plain s, i) in
+  let it'' := match kind with 2%nat => apply_writes (gti_write o) steps 1%Z it' | _ => it' end in
+  SL [sN (gti_len it); slist (sstep' (slist sN)) steps; dump (gi_source it'')]
+  end.
+
+Definition initial_store : N * N -> option Z := fun e => Some (Views.leaf_value e).
+Definition dump_store (c : Views.cview) (st : N * N -> option Z) : sx :=
+  slist (fun e => slist (fun j => match st (fst e, N.of_nat j) with Some x => SZ x | None => SL [] end)
+                        (seq 0 (N.to_nat (snd e))))
+        (Views.c_leaves c).
+
+(* a term whose view is entered through a shared reference somewhere: (11 t 4), or a convenience
+   constructor taking `&self` (via 3 / 4) *)
+Fixpoint term_read_only (fuel : nat) (t : sx) : bool :=
+  match fuel with
+  | O => false
+  | S f =>
+    match t with
+    | SL [SZ 11%Z; t'; SZ kind] => (kind =? 4)%Z || term_read_only f t'
+    | SL [SZ 9%Z; SL ts; _; _; _] => existsb (term_read_only f) ts
+    | SL [SZ 10%Z; SL ts; _; _] => existsb (term_read_only f) ts
+    | SL [SZ _; t'; _; SZ via] => (via =? 3)%Z || (via =? 4)%Z || term_read_only f t'
+    | SL (SZ _ :: t' :: _) => term_read_only f t'
+    | _ => false
+    end
+  end.
+
+(* ---- op 6: matrix iterators over C12 view stacks ---- *)
+Definition c09_gline (script : option (list pstep)) (o : msource (list Z) Z) (mode : nat)
+           (it : giter lcounters (list Z)) (k : nat) : sx :=
+  match script with
+  | Some sc =>
+      let '(steps, it'') := script_iter (gli_next o) no_wi gli_len spair_rc (gli_write o) false
+                                        (Nat.eqb mode 2) sc it in
+      SL [sN (gli_len it); steps; slist SZ (gi_source it'')]
+  | None =>
+  let '(s, it') := drive (gli_next o) gli_len k it in
+  let steps := map norm_plain s in
+  let it'' := match mode with 2%nat => apply_writes (gli_write o) steps 1%Z it' | _ => it' end in
+  SL [sN (gli_len it); slist (sstep' spair_rc) steps; slist SZ (gi_source it'')]
+  end.
+
+Definition c09_gmajor (script : option (list pstep)) (o : msource (list Z) Z) (mode : nat) (wi : bool)
+           (it : giter mcounters (list Z)) (k : nat) : sx :=
+  let next := match mode with 3%nat => gmi_next_owned o 0%Z | _ => gmi_next o end in
+  match script with
+  | Some sc =>
+      let '(steps, it'') := script_iter next (gmi_with_index next) gmi_len spair_rc (gmi_write o) wi
+                                        (Nat.eqb mode 2) sc it in
+      SL [sN (gmi_len it); steps; slist SZ (gi_source it'')]
+  | None =>
+  let '(steps, it') :=
+    if wi then let '(s, i) := drive (gmi_with_index next) gmi_len k it in (map norm_wi s, i)
+    else let '(s, i) := drive next gmi_len k it in (map norm_plain s, i) in
+  let it'' := match mode with 2%nat => apply_writes (gmi_write o) steps 1%Z it' | _ => it' end in
+  SL [sN (gmi_len it); slist (sstep' spair_rc) steps; slist SZ (gi_source it'')]
+  end.
+
+Definition c09_gmiter (script : option (list pstep)) (o : msource (list Z) Z) (order mode : nat) (wi : bool)
+           (data : list Z) (arg : N) (k : nat) : sx :=
+  match order with
+  | 0%nat => soutcome (fun it => c09_gline script o mode it k) (gli_column o data arg)
+  | 1%nat => soutcome (fun it => c09_gline script o mode it k) (gli_row o data arg)
+  | 2%nat => soutcome (fun it => c09_gmajor script o mode wi it k) (Ok (gmi_from o false data))
+  | 3%nat => soutcome (fun it => c09_gmajor script o mode wi it k) (Ok (gmi_from o true data))
+  | _ => soutcome (fun it => c09_gline script o mode it k) (Ok (gli_diagonal o data))
+  end.
+
+Definition run_c09_with (script : option (list pstep)) (args : list sx) : sx :=
   match args with
+  | [SZ 5%Z; kind; wi; term; k] =>
+      match dnat kind, dbool wi, RunC02.dview 40 term, dnat k with
+      | Some kind, Some wi, Some tv, Some k =>
+          if (kind <=? 3)%nat && RunC02.nodup_b (RunC02.v_leaf_ids tv)
+             && negb ((2 <=? kind)%nat && term_read_only 40 term)
+          then match Views.v_ctor tv with
+               | Ok c => SL [SZ 0%Z; c09_gtiter script (cview_source c) (dump_store c) kind wi initial_store k]
+               | Err e => SL [SZ 1%Z; e]
+               | Panic => SL [SZ 2%Z]
+               end
+          else bad_case
+      | _, _, _, _ => bad_case
+      end
+  | [SZ 6%Z; order; mode; wi; rows; cols; data; leaf; ws; arg; k] =>
+      match dnat order, dnat mode, dbool wi, dN rows, dN cols, dlist dZ data with
+      | Some order, Some mode, Some wi, Some rows, Some cols, Some data =>
+          match dlist RunC12.dwrapper ws, dN arg, dnat k with
+          | Some ws, Some arg, Some k =>
+              if (order <=? 4)%nat && (mode <=? 3)%nat
+                 && (negb (Nat.eqb mode 3) || Nat.eqb order 2 || Nat.eqb order 3)
+                 && (negb wi || Nat.eqb order 2 || Nat.eqb order 3)
+                 && RunC12.root_ok rows cols data
+              then match RunC12.dleaf rows cols leaf with
+                   | Some lf =>
+                       match obind lf (fun v => RunC12.apply_wrappers v ws) with
+                       | Ok v => c09_gmiter script (mview_source v) order mode wi data arg k
+                       | Err e => SL [SZ 1%Z; e]
+                       | Panic => SL [SZ 2%Z]
+                       end
+                   | None => bad_case
+                   end
+              else bad_case
+          | _, _, _ => bad_case
+          end
+      | _, _, _, _, _, _ => bad_case
+      end
   | [SZ 4%Z; sh; k] =>
       match dshape sh, dnat k with
-      | Some sh, Some k => c09_shapeiter_items sh k
+      | Some sh, Some k => match script with None => c09_shapeiter_items sh k | Some _ => bad_case end
       | _, _ => bad_case
       end
   | [SZ 1%Z; sh; k] =>
       match dshape sh, dnat k with
-      | Some sh, Some k => c09_shapeiter sh k
+      | Some sh, Some k => c09_shapeiter script sh k
       | _, _ => bad_case
       end
   | [SZ 2%Z; kind; wi; src; k] =>
       match dnat kind, dbool wi, dsrc 8 src, dnat k with
       | Some kind, Some wi, Some src, Some k =>
-          if (kind <=? 3)%nat then soutcome (fun s => c09_titer kind wi s k) src else bad_case
+          if (kind <=? 3)%nat then soutcome (fun s => c09_titer script kind wi s k) src else bad_case
       | _, _, _, _ => bad_case
       end
   | [SZ 3%Z; order; mode; wi; src; arg; k] =>
@@ -127,7 +350,7 @@ Definition run_c09 (args : list sx) : sx :=
              && (negb (Nat.eqb mode 3) || Nat.eqb order 2 || Nat.eqb order 3)
              && (negb wi || Nat.eqb order 2 || Nat.eqb order 3)
           then match src with
-               | Ok s => c09_miter order mode wi s arg k
+               | Ok s => c09_miter script order mode wi s arg k
                | Err e => SL [SZ 1%Z; e]
                | Panic => SL [SZ 2%Z]
                end
@@ -135,4 +358,14 @@ Definition run_c09 (args : list sx) : sx :=
       | _, _, _, _, _, _ => bad_case
       end
   | _ => bad_case
+  end.
+
+Definition run_c09 (args : list sx) : sx :=
+  match args with
+  | SZ 7%Z :: script :: inner =>
+      match dlist dpstep script with
+      | Some sc => run_c09_with (Some sc) inner
+      | None => bad_case
+      end
+  | _ => run_c09_with None args
   end.
